@@ -3,9 +3,12 @@
 package main
 
 import (
+	"encoding/base64"
 	"encoding/binary"
 	"fmt"
+	"io"
 	"net"
+	"net/http"
 	"strings"
 	"sync"
 	"sync/atomic"
@@ -16,8 +19,9 @@ import (
 )
 
 // Behaviour of a fake upstream for one question, decoded from the second label of the name:
-//   r<rcode>t<ttl>d<delay ms>[f<flags>]   flags: T truncated, G garbage, S silent, C connection failure,
-//   N no answer (SOA in authority), O reply carries an option-laden OPT, M several answers with distinct TTLs
+//
+//	r<rcode>t<ttl>d<delay ms>[f<flags>]   flags: T truncated, G garbage, S silent, C connection failure,
+//	N no answer (SOA in authority), O reply carries an option-laden OPT, M several answers with distinct TTLs
 type beh struct {
 	rcode, ttl, delay int
 	flags             string
@@ -43,11 +47,13 @@ func (b beh) has(f byte) bool { return strings.IndexByte(b.flags, f) >= 0 }
 var tokCtr atomic.Uint32
 
 type fakeUp struct {
-	tag  string
-	tr   func() *vtrace.T
-	uc   *net.UDPConn
-	tl   net.Listener
-	addr string
+	tag   string
+	tr    func() *vtrace.T
+	uc    *net.UDPConn
+	tl    net.Listener
+	addr  string
+	hl    net.Listener // plain-HTTP DoH
+	haddr string
 	// dynamic override: name(lower) -> behaviour label sequence (one per successive query)
 	mu       sync.Mutex
 	override map[string][]string
@@ -76,12 +82,55 @@ func newFakeUp(tag string, tr func() *vtrace.T) *fakeUp {
 	}
 	u.tl = l
 	u.addr = l.Addr().String()
+	hl, err := net.Listen("tcp", "127.0.0.1:0")
+	if err != nil {
+		panic(err)
+	}
+	u.hl = hl
+	u.haddr = hl.Addr().String()
 	go u.serveUDP()
 	go u.serveTCP()
+	go u.serveHTTP()
 	return u
 }
 
-func (u *fakeUp) close() { u.uc.Close(); u.tl.Close() }
+func (u *fakeUp) close() { u.uc.Close(); u.tl.Close(); u.hl.Close() }
+
+// url of the upstream for a scheme of the router's configuration
+func (u *fakeUp) url(scheme string) string {
+	if scheme == "http" {
+		return "http://" + u.haddr + "/dns-query"
+	}
+	return scheme + "://" + u.addr
+}
+
+// plain-HTTP DoH (RFC 8484 GET and POST)
+func (u *fakeUp) serveHTTP() {
+	hs := &http.Server{Handler: http.HandlerFunc(func(w http.ResponseWriter, r *http.Request) {
+		var body []byte
+		if r.Method == http.MethodGet {
+			body, _ = base64.RawURLEncoding.DecodeString(r.URL.Query().Get("dns"))
+		} else {
+			body, _ = io.ReadAll(io.LimitReader(r.Body, 65536))
+		}
+		reply, fail := u.handle(body, "http")
+		if fail {
+			if hj, ok := w.(http.Hijacker); ok {
+				if c, _, err := hj.Hijack(); err == nil {
+					c.Close()
+				}
+			}
+			return
+		}
+		if reply == nil {
+			<-r.Context().Done()
+			return
+		}
+		w.Header().Set("Content-Type", "application/dns-message")
+		w.Write(reply)
+	})}
+	hs.Serve(u.hl)
+}
 
 func labelsJS(name string) [][]int {
 	var r [][]int
@@ -222,6 +271,12 @@ func (u *fakeUp) handle(w []byte, proto string) (reply []byte, fail bool) {
 	if b.has('M') {
 		ttls = []int{b.ttl + 7, b.ttl, b.ttl + 300}
 	}
+	if b.has('Z') { // a zero TTL first: the minimum is 0 whatever follows
+		ttls = []int{0, b.ttl}
+	}
+	if b.has('Y') { // a zero TTL in the middle
+		ttls = []int{b.ttl + 10, 0, b.ttl}
+	}
 	// big answers: B ~ 65 KB (330 TXT records of 190 octets), K ~ 3 KB, L ~ 1.3 KB
 	ntxt := 0
 	switch {
@@ -258,6 +313,41 @@ func (u *fakeUp) handle(w []byte, proto string) (reply []byte, fail bool) {
 	for i := 0; i < ntxt; i++ {
 		r.Answer = append(r.Answer, &dns.TXT{Hdr: dns.RR_Header{Name: name, Rrtype: dns.TypeTXT, Class: dns.ClassINET, Ttl: uint32(b.ttl)}, Txt: []string{strings.Repeat(string(rune('a'+i%26)), 188)}})
 	}
+	if b.has('R') && len(q.Question) > 0 { // record types with names inside RDATA
+		r.Answer = append(r.Answer,
+			&dns.SRV{Hdr: dns.RR_Header{Name: name, Rrtype: dns.TypeSRV, Class: dns.ClassINET, Ttl: uint32(b.ttl)}, Priority: 1, Weight: 2, Port: 5060, Target: "sip1." + name},
+			&dns.MX{Hdr: dns.RR_Header{Name: name, Rrtype: dns.TypeMX, Class: dns.ClassINET, Ttl: uint32(b.ttl)}, Preference: 10, Mx: "mail." + name})
+	}
+	if (b.has('J') || b.has('H')) && len(q.Question) > 0 {
+		// J: the proxy's (compressed) response to a client with EDNS0 lands in 65508..65535 octets - legal for
+		//    the advertised size 65535, too large for a UDP datagram.  H: the upstream reply is 65525..65535
+		//    octets without OPT, so that adding the proxy's OPT pushes a stream response over 65535.
+		// compressed size: 12 + question + A (16) + n x (12 + 1 + len) [+ 11 for the OPT]
+		qlen := len(name) + 1 + 4
+		if name == "." {
+			qlen = 5
+		}
+		target := 65521 - 11
+		if b.has('H') {
+			target = 65530
+		}
+		size := 12 + qlen + 16*len(r.Answer)
+		for size < target {
+			l := 255
+			if rest := target - size - 13; rest < l+13+1 {
+				l = rest
+				if l > 255 {
+					l = rest / 2
+				}
+			}
+			if l < 0 {
+				break
+			}
+			r.Answer = append(r.Answer, &dns.TXT{Hdr: dns.RR_Header{Name: name, Rrtype: dns.TypeTXT, Class: dns.ClassINET, Ttl: uint32(b.ttl)}, Txt: []string{strings.Repeat("j", l)}})
+			size += 13 + l
+		}
+		r.Compress = true
+	}
 	if b.has('N') || b.rcode == 3 && b.has('A') {
 		r.Ns = append(r.Ns, &dns.SOA{Hdr: dns.RR_Header{Name: "test.", Rrtype: dns.TypeSOA, Class: dns.ClassINET, Ttl: uint32(b.ttl)}, Ns: "ns.test.", Mbox: "m.test.", Serial: tok, Refresh: 1, Retry: 2, Expire: 3, Minttl: 4})
 	}
@@ -271,7 +361,7 @@ func (u *fakeUp) handle(w []byte, proto string) (reply []byte, fail bool) {
 			&dns.EDNS0_PADDING{Padding: make([]byte, 17)})
 		r.Extra = append(r.Extra, o)
 	}
-	r.Compress = ntxt > 0
+	r.Compress = r.Compress || ntxt > 0
 	out, err := r.Pack()
 	if err != nil {
 		panic(err)
@@ -296,6 +386,13 @@ func (u *fakeUp) serveUDP() {
 		w := append([]byte(nil), buf[:n]...)
 		go func() {
 			r, _ := u.handle(w, "udp")
+			if len(r) > 4096 { // a real server truncates: header + question with TC set
+				m := new(dns.Msg)
+				if m.Unpack(r) == nil {
+					m.Answer, m.Ns, m.Extra, m.Truncated = nil, nil, nil, true
+					r, _ = m.Pack()
+				}
+			}
 			if r != nil {
 				u.uc.WriteToUDP(r, ra)
 			}
